@@ -107,12 +107,21 @@ func (info *decodeInfo) decodeCharString(code []byte) (*Glyph, error) {
 	stage := stageStart
 
 	var storage []float64
+	steps := 0
 	cmdStack := [][]byte{code}
 	for len(cmdStack) > 0 {
 		cmdStack, code = cmdStack[:len(cmdStack)-1], cmdStack[len(cmdStack)-1]
 
 	opLoop:
 		for len(code) > 0 {
+			// Nested subroutine calls can multiply the work exponentially
+			// (fan-out^depth); limit the total number of operands and
+			// operators executed for one glyph.
+			steps++
+			if steps > maxT2Steps {
+				return nil, errTooManySteps
+			}
+
 			if len(stack) > maxStack {
 				return nil, errStackOverflow
 			}
@@ -870,7 +879,12 @@ const (
 	t2flex1      t2op = 0x0c25
 )
 
+// maxT2Steps is the maximum number of operands and operators which are
+// executed for a single glyph.
+const maxT2Steps = 1 << 20
+
 var (
+	errTooManySteps      = invalidSince("type 2 charstring executes too many operations")
 	errStackOverflow     = invalidSince("type 2 stack overflow")
 	errStackUnderflow    = invalidSince("type 2 stack underflow")
 	errIncomplete        = invalidSince("incomplete type 2 charstring")
